@@ -974,7 +974,7 @@ Theorem drop_window_exists :
 Proof.
   exists [HSleep 5; SPoll 0 0; TIdle; TRecv; Tick 10; SDrop 0; TFire 0], (mkW 0 5 0).
   cbn zeta. split; [|split].
-  - split; vm_compute; [split; discriminate | reflexivity].
+  - unfold dropped. split; [split; [apply Z.leb_le | apply Z.ltb_lt]; vm_compute; reflexivity | vm_compute; reflexivity].
   - unfold cancel_consumed. vm_compute. discriminate.
   - vm_compute. reflexivity.
 Qed.
@@ -991,5 +991,11 @@ Example demo_facts :
   In (EvWoken (mkW 1 7 1) 8) (log s) /\ In (EvReady 1 8 7 0 7) (log s) /\
   woken_of 0 (log s) = [] /\ pc s = Receiving None 8.
 Proof.
-  cbn zeta. repeat split; try (vm_compute; tauto); try (vm_compute; discriminate).
+  cbn zeta. split; [|split; [|split; [|split; [|split]]]].
+  - unfold dropped. split; [split; [apply Z.leb_le | apply Z.ltb_lt]; vm_compute; reflexivity | vm_compute; reflexivity].
+  - unfold cancel_consumed. vm_compute. reflexivity.
+  - vm_compute. tauto.
+  - vm_compute. tauto.
+  - vm_compute. reflexivity.
+  - vm_compute. reflexivity.
 Qed.
